@@ -375,7 +375,8 @@ class TreeSim(WorldBase):
             else:
                 cur = ob.find_payload(sl.root, h["point"]) if sl is not None else None
             if cur is not h["box"]:
-                if culprit in ("ref", "posref", "hw") and self.prop == "C03":
+                inplace_scale = culprit == "fimul" and getattr(self, "last_fimul_scalar", False)
+                if (culprit in ("ref", "posref", "hw") or inplace_scale) and self.prop == "C03":
                     self.V("C03", "C03.handle-alias", culprit,
                            f"handle at {h['point']} of slot {h['slot']} no longer is the stored payload after {culprit}")
                 h["alive"] = False
@@ -974,6 +975,8 @@ class TreeSim(WorldBase):
             other = a["scalar"]
         else:
             other = Fiber([dec_coord(c) for c in a["coords"]], list(a["vals"]))
+        # fiber *= scalar scales the stored boxes in place: a handle taken earlier stays the stored payload
+        self.last_fimul_scalar = "scalar" in a and a["scalar"] not in (0,)
         try:
             f.__imul__(other)
         except Exception as e:
@@ -1613,12 +1616,15 @@ class TreeSim(WorldBase):
     # ---- dense co-iteration with reference creation (two destinations at once)
     def start_coishaperef(self, tid, a, targets):
         s1, s2 = a["slot"], a["slot2"]
-        if s1 == s2:
+        same = bool(a.get("same")) and s1 == s2 and a["prefix"] == a["prefix2"]
+        if s1 == s2 and not same:
             raise Skip("same tensor")
         self.need_unfrozen(s1)
         self.need_unfrozen(s2)
         sl1, f1 = self.fiber_at(s1, a["prefix"])
         sl2, f2 = self.fiber_at(s2, a["prefix2"])
+        if same:
+            self.probe("dense_co_iteration_of_a_fiber_with_itself")
         if sl1.free or sl2.free:
             raise Skip("free")
         l1, l2 = len(a["prefix"]), len(a["prefix2"])
@@ -2346,6 +2352,8 @@ class TreeSim(WorldBase):
                 continue
             a = {"slot": s, "prefix": enc_point(pre), "slot2": o, "prefix2": enc_point(opre),
                  "var": g.choice(["shape", "active", "range"])}
+            if self.prop in ("C01", "C02") and g.random() < 0.15:
+                a.update({"slot2": s, "prefix2": enc_point(pre), "same": True})      # the same fiber passed twice
             if a["var"] == "range":
                 S = sl.shape[k]
                 a["lo"] = g.randrange(0, S)
